@@ -14,13 +14,22 @@
 
 package query
 
+import (
+	"unicode"
+	"unicode/utf8"
+)
+
 func toLower(in []byte) []byte {
-	out := make([]byte, len(in))
-	for i, c := range in {
-		if c >= 'A' && c <= 'Z' {
-			c = c - 'A' + 'a'
+	out := make([]byte, 0, len(in))
+	for len(in) > 0 {
+		c, sz := utf8.DecodeRune(in)
+		if c == utf8.RuneError && sz == 1 {
+			// keep invalid UTF-8 as is
+			out = append(out, in[0])
+		} else {
+			out = utf8.AppendRune(out, unicode.ToLower(c))
 		}
-		out[i] = c
+		in = in[sz:]
 	}
 	return out
 }
